@@ -389,6 +389,132 @@ pub mod ovr {
 }
 
 // ---------------------------------------------------------------------------------------------
+// P5: contract and interface over custom message / query types, on a chain built over those types
+
+pub mod cus {
+    use cw_storage_plus::Item;
+    use sylvia::ctx::{ExecCtx, InstantiateCtx, MigrateCtx, QueryCtx, SudoCtx};
+    use sylvia::cw_std::{Response, StdError, StdResult};
+
+    #[derive(sylvia::serde::Serialize, sylvia::serde::Deserialize, Clone, Debug, PartialEq, sylvia::schemars::JsonSchema)]
+    #[serde(rename_all = "snake_case", crate = "sylvia::serde")]
+    #[schemars(crate = "sylvia::schemars")]
+    pub enum ChainMsg {
+        Noop {},
+    }
+    impl sylvia::cw_std::CustomMsg for ChainMsg {}
+
+    #[derive(sylvia::serde::Serialize, sylvia::serde::Deserialize, Clone, Debug, PartialEq, sylvia::schemars::JsonSchema)]
+    #[serde(rename_all = "snake_case", crate = "sylvia::serde")]
+    #[schemars(crate = "sylvia::schemars")]
+    pub enum ChainQuery {
+        Nothing {},
+    }
+    impl sylvia::cw_std::CustomQuery for ChainQuery {}
+
+    pub mod ctally {
+        use super::{ChainMsg, ChainQuery};
+        use sylvia::ctx::{ExecCtx, QueryCtx, SudoCtx};
+        use sylvia::cw_std::{Response, StdError};
+
+        #[sylvia::interface]
+        #[sv::custom(msg = ChainMsg, query = ChainQuery)]
+        pub trait Ctally {
+            type Error: From<StdError>;
+
+            #[sv::msg(exec)]
+            fn tally_add(&self, ctx: ExecCtx<ChainQuery>, n: u32) -> Result<Response<ChainMsg>, Self::Error>;
+
+            #[sv::msg(query)]
+            fn tally(&self, ctx: QueryCtx<ChainQuery>) -> Result<u32, Self::Error>;
+
+            #[sv::msg(sudo)]
+            fn tally_reset(&self, ctx: SudoCtx<ChainQuery>, to: u32) -> Result<Response<ChainMsg>, Self::Error>;
+        }
+    }
+
+    pub struct Cus {
+        pub count: Item<u32>,
+        pub tally: Item<u32>,
+    }
+
+    #[sylvia::contract]
+    #[sv::custom(msg = ChainMsg, query = ChainQuery)]
+    #[sv::messages(ctally as Ctally)]
+    impl Cus {
+        pub const fn new() -> Self {
+            Self { count: Item::new("count"), tally: Item::new("tally") }
+        }
+
+        #[sv::msg(instantiate)]
+        fn instantiate(&self, ctx: InstantiateCtx<ChainQuery>, v: u32) -> StdResult<Response<ChainMsg>> {
+            if v == 99 {
+                return Err(StdError::generic_err("instantiate refused"));
+            }
+            self.count.save(ctx.deps.storage, &v)?;
+            self.tally.save(ctx.deps.storage, &0)?;
+            Ok(Response::new().add_attribute("init", v.to_string()))
+        }
+
+        #[sv::msg(exec)]
+        fn add(&self, ctx: ExecCtx<ChainQuery>, n: u32) -> StdResult<Response<ChainMsg>> {
+            if n == 13 {
+                return Err(StdError::generic_err("unlucky"));
+            }
+            let c = self.count.load(ctx.deps.storage)? + n;
+            self.count.save(ctx.deps.storage, &c)?;
+            Ok(Response::new().add_attribute("count", c.to_string()).add_attribute("by", ctx.info.sender).set_data(c.to_be_bytes().to_vec()))
+        }
+
+        #[sv::msg(query)]
+        fn count(&self, ctx: QueryCtx<ChainQuery>) -> StdResult<u32> {
+            self.count.load(ctx.deps.storage)
+        }
+
+        #[sv::msg(sudo)]
+        fn bump(&self, ctx: SudoCtx<ChainQuery>, by: u32) -> StdResult<Response<ChainMsg>> {
+            if by == 13 {
+                return Err(StdError::generic_err("unlucky sudo"));
+            }
+            let c = self.count.load(ctx.deps.storage)? + by;
+            self.count.save(ctx.deps.storage, &c)?;
+            Ok(Response::new().add_attribute("bumped", c.to_string()))
+        }
+
+        #[sv::msg(migrate)]
+        fn migrate(&self, ctx: MigrateCtx<ChainQuery>, to: u32) -> StdResult<Response<ChainMsg>> {
+            if to == 13 {
+                return Err(StdError::generic_err("unlucky migrate"));
+            }
+            self.count.save(ctx.deps.storage, &to)?;
+            Ok(Response::new().add_attribute("migrated", to.to_string()).set_data(b"mig".to_vec()))
+        }
+    }
+
+    impl ctally::Ctally for Cus {
+        type Error = StdError;
+
+        fn tally_add(&self, ctx: ExecCtx<ChainQuery>, n: u32) -> Result<Response<ChainMsg>, Self::Error> {
+            if n == 13 {
+                return Err(StdError::generic_err("unlucky tally"));
+            }
+            let t = self.tally.load(ctx.deps.storage)? + n;
+            self.tally.save(ctx.deps.storage, &t)?;
+            Ok(Response::new().add_attribute("tally", t.to_string()))
+        }
+
+        fn tally(&self, ctx: QueryCtx<ChainQuery>) -> Result<u32, Self::Error> {
+            self.tally.load(ctx.deps.storage)
+        }
+
+        fn tally_reset(&self, ctx: SudoCtx<ChainQuery>, to: u32) -> Result<Response<ChainMsg>, Self::Error> {
+            self.tally.save(ctx.deps.storage, &to)?;
+            Ok(Response::new())
+        }
+    }
+}
+
+// ---------------------------------------------------------------------------------------------
 // operation alphabets
 
 /// 999 stands for "one coin of amount zero" (legal to attach, refused by the chain's bank)
@@ -449,7 +575,7 @@ fn alphabet(tier: &str) -> Vec<Op> {
 }
 
 macro_rules! program {
-    ($name:ident, $label:expr, $contract:ty, $modpath:path, $err:ty, $inst_json:expr, $inst_call:expr,
+    ($name:ident, $label:expr, $contract:ty, $modpath:path, $err:ty, $cm:ty, $cq:ty, $inst_json:expr, $inst_call:expr,
      $exec_json:expr, $exec_call:expr, $query_json:expr, $query_call:expr, $sudo_json:expr, $sudo_call:expr, $mig_json:expr, $mig_call:expr) => {
         pub struct $name {
             ops: Vec<Op>,
@@ -466,12 +592,12 @@ macro_rules! program {
             }
             fn replay(&self, hist: &[usize]) -> StepReport {
                 use $modpath as m;
-                let (papp_inner, actors) = new_chain();
-                let (mut rapp, ractors) = new_chain();
-                let papp: SApp = SApp::new(papp_inner);
+                let (papp_inner, actors) = new_chain::<$cm, $cq>();
+                let (mut rapp, ractors) = new_chain::<$cm, $cq>();
+                let papp: SApp<$cm, $cq> = SApp::new(papp_inner);
                 let mut pcodes = vec![];
                 let mut rcodes: Vec<u64> = vec![];
-                let mut pinsts: Vec<sylvia::multitest::Proxy<sylvia::cw_multi_test::App, $contract>> = vec![];
+                let mut pinsts: Vec<sylvia::multitest::Proxy<MtApp<$cm, $cq>, $contract>> = vec![];
                 let mut rinsts: Vec<Addr> = vec![];
                 let mut last = StepReport { enabled: true, mismatch: None, state: String::new() };
                 for (step, oi) in hist.iter().enumerate() {
@@ -511,7 +637,7 @@ macro_rules! program {
                             if let Some(p) = created { pinsts.push(p); }
                             let rsender = if stranger { &ractors.stranger } else { &ractors.owner };
                             // the proxy's documented default label is "Contract"
-                            let (ro, ra) = raw_instantiate::<$err>(&mut rapp, rsender, *rcodes.last().unwrap(), &$inst_json(v), &fnds, label.unwrap_or("Contract"),
+                            let (ro, ra) = raw_instantiate::<$err, $cm, $cq>(&mut rapp, rsender, *rcodes.last().unwrap(), &$inst_json(v), &fnds, label.unwrap_or("Contract"),
                                 if admin { Some(ractors.owner.to_string()) } else { None }, salt);
                             if let Some(a) = ra { rinsts.push(a); }
                             (po, ro)
@@ -526,7 +652,7 @@ macro_rules! program {
                             let p = &pinsts[ix];
                             let po = guarded(|| match $exec_call(p, mi, arg, &fnds, sender) { Ok(r) => ok_exec(r, false), Err(e) => Out::Typed(format!("{:?}", e)) });
                             let rsender = if stranger { &ractors.stranger } else { &ractors.owner };
-                            let ro = raw_exec::<$err>(&mut rapp, rsender, &rinsts[ix], &$exec_json(mi, arg), &fnds);
+                            let ro = raw_exec::<$err, $cm, $cq>(&mut rapp, rsender, &rinsts[ix], &$exec_json(mi, arg), &fnds);
                             (po, ro)
                         }
                         Op::Query { m: mi, arg, inst } => {
@@ -536,7 +662,7 @@ macro_rules! program {
                             };
                             let p = &pinsts[ix];
                             let po = guarded(|| proxy_query($query_call(p, mi, arg)));
-                            let ro = raw_query::<u32, $err>(&rapp, &rinsts[ix], &$query_json(mi, arg));
+                            let ro = raw_query::<u32, $err, $cm, $cq>(&rapp, &rinsts[ix], &$query_json(mi, arg));
                             (po, ro)
                         }
                         Op::Sudo { m: mi, arg, inst } => {
@@ -546,7 +672,7 @@ macro_rules! program {
                             };
                             let p = &pinsts[ix];
                             let po = guarded(|| match $sudo_call(p, mi, arg) { Ok(r) => ok_exec(r, false), Err(e) => Out::Typed(format!("{:?}", e)) });
-                            let ro = raw_sudo::<$err>(&mut rapp, &rinsts[ix], &$sudo_json(mi, arg));
+                            let ro = raw_sudo::<$err, $cm, $cq>(&mut rapp, &rinsts[ix], &$sudo_json(mi, arg));
                             (po, ro)
                         }
                         Op::Migrate { arg, stranger, missing_code, inst } => {
@@ -559,7 +685,7 @@ macro_rules! program {
                             let p = &pinsts[ix];
                             let po = guarded(|| match $mig_call(p, arg, sender, code) { Ok(r) => ok_exec(r, false), Err(e) => Out::Typed(format!("{:?}", e)) });
                             let rsender = if stranger { &ractors.stranger } else { &ractors.owner };
-                            let ro = raw_migrate::<$err>(&mut rapp, rsender, &rinsts[ix], &$mig_json(arg), code);
+                            let ro = raw_migrate::<$err, $cm, $cq>(&mut rapp, rsender, &rinsts[ix], &$mig_json(arg), code);
                             (po, ro)
                         }
                     };
@@ -592,7 +718,7 @@ fn led_inst<'p, 'a>(code: &'p led::sv::mt::CodeId<'a, led::Led, sylvia::cw_multi
 }
 
 program!(
-    CntProg, "cnt", cnt::Cnt, crate::history_progs::cnt, sylvia::cw_std::StdError,
+    CntProg, "cnt", cnt::Cnt, crate::history_progs::cnt, sylvia::cw_std::StdError, sylvia::cw_std::Empty, sylvia::cw_std::Empty,
     |v: u32| format!("{{\"v\":{}}}", v),
     cnt_inst,
     |mi: u8, arg: u32| if mi == 0 { format!("{{\"add\":{{\"n\":{}}}}}", arg) } else { "{\"clear\":{}}".to_string() },
@@ -618,7 +744,7 @@ program!(
 );
 
 program!(
-    LedProg, "led+tally", led::Led, crate::history_progs::led, led::LedError,
+    LedProg, "led+tally", led::Led, crate::history_progs::led, led::LedError, sylvia::cw_std::Empty, sylvia::cw_std::Empty,
     |v: u32| format!("{{\"start\":{},\"note\":\"n\"}}", v),
     led_inst,
     |mi: u8, arg: u32| if mi == 0 { format!("{{\"tally_add\":{{\"n\":{}}}}}", arg) } else { format!("{{\"spend\":{{\"n\":{}}}}}", arg) },
@@ -651,7 +777,7 @@ fn bag_inst<'p, 'a>(code: &'p bag::sv::mt::CodeId<'a, bag::Bag<u32>, sylvia::cw_
 }
 
 program!(
-    BagProg, "generic bag<u32>", bag::Bag<u32>, crate::history_progs::bag, sylvia::cw_std::StdError,
+    BagProg, "generic bag<u32>", bag::Bag<u32>, crate::history_progs::bag, sylvia::cw_std::StdError, sylvia::cw_std::Empty, sylvia::cw_std::Empty,
     |v: u32| format!("{{\"first\":{},\"copies\":{}}}", v, if v == 99 { 99 } else { v % 3 }),
     bag_inst,
     |mi: u8, arg: u32| if mi == 0 { format!("{{\"push\":{{\"item\":{},\"times\":{}}}}}", arg + 100, arg) } else { "{\"clear\":{}}".to_string() },
@@ -682,7 +808,7 @@ fn ovr_inst<'p, 'a>(code: &'p ovr::sv::mt::CodeId<'a, ovr::Ovr, sylvia::cw_multi
 
 // a contract whose execute entry point is overridden by a hand-written function: proxy and raw JSON must both reach the override
 program!(
-    OvrProg, "overridden exec", ovr::Ovr, crate::history_progs::ovr, sylvia::cw_std::StdError,
+    OvrProg, "overridden exec", ovr::Ovr, crate::history_progs::ovr, sylvia::cw_std::StdError, sylvia::cw_std::Empty, sylvia::cw_std::Empty,
     |v: u32| format!("{{\"start\":{}}}", v),
     ovr_inst,
     |mi: u8, arg: u32| if mi == 0 { format!("{{\"add\":{{\"n\":{}}}}}", arg) } else { "{\"clear\":{}}".to_string() },
@@ -707,7 +833,42 @@ program!(
     }
 );
 
+type CusApp = MtApp<cus::ChainMsg, cus::ChainQuery>;
+
+fn cus_inst<'p, 'a>(code: &'p cus::sv::mt::CodeId<'a, cus::Cus, CusApp>, v: u32) -> cus::sv::mt::InstantiateProxy<'p, 'a, CusApp> {
+    code.instantiate(v)
+}
+
+program!(
+    CusProg, "custom msg/query chain", cus::Cus, crate::history_progs::cus, sylvia::cw_std::StdError, cus::ChainMsg, cus::ChainQuery,
+    |v: u32| format!("{{\"v\":{}}}", v),
+    cus_inst,
+    |mi: u8, arg: u32| if mi == 0 { format!("{{\"tally_add\":{{\"n\":{}}}}}", arg) } else { format!("{{\"add\":{{\"n\":{}}}}}", arg) },
+    |p: &sylvia::multitest::Proxy<CusApp, cus::Cus>, mi: u8, arg: u32, f: &[Coin], s: &Addr| {
+        use cus::ctally::sv::mt::CtallyProxy;
+        use cus::sv::mt::CusProxy;
+        if mi == 0 { p.tally_add(arg).with_funds(f).call(s) } else { p.add(arg).with_funds(f).call(s) }
+    },
+    |mi: u8, _arg: u32| if mi == 0 { "{\"tally\":{}}".to_string() } else { "{\"count\":{}}".to_string() },
+    |p: &sylvia::multitest::Proxy<CusApp, cus::Cus>, mi: u8, _arg: u32| {
+        use cus::ctally::sv::mt::CtallyProxy;
+        use cus::sv::mt::CusProxy;
+        if mi == 0 { p.tally() } else { p.count() }
+    },
+    |mi: u8, arg: u32| if mi == 0 { format!("{{\"tally_reset\":{{\"to\":{}}}}}", arg) } else { format!("{{\"bump\":{{\"by\":{}}}}}", arg) },
+    |p: &sylvia::multitest::Proxy<CusApp, cus::Cus>, mi: u8, arg: u32| {
+        use cus::ctally::sv::mt::CtallyProxy;
+        use cus::sv::mt::CusProxy;
+        if mi == 0 { p.tally_reset(arg) } else { p.bump(arg) }
+    },
+    |arg: u32| format!("{{\"to\":{}}}", arg),
+    |p: &sylvia::multitest::Proxy<CusApp, cus::Cus>, arg: u32, s: &Addr, code: u64| {
+        use cus::sv::mt::CusProxy;
+        p.migrate(arg).call(s, code)
+    }
+);
+
 pub fn all(tier: &str) -> Vec<Box<dyn Program>> {
     vec![Box::new(CntProg { ops: alphabet(tier) }), Box::new(LedProg { ops: alphabet(tier) }), Box::new(BagProg { ops: alphabet(tier) }),
-         Box::new(OvrProg { ops: alphabet(tier) })]
+         Box::new(OvrProg { ops: alphabet(tier) }), Box::new(CusProg { ops: alphabet(tier) })]
 }
